@@ -135,7 +135,10 @@ class Responder(ScriptNode):
         if self.fd:
             self._tx(C.PF_FD_TP_CM, st['sa'], C.fdcm_cts(st['ses'], st['next'], w, st['pgn']))
         else:
-            self._tx(C.PF_TP_CM, st['sa'], C.tpcm_cts(w, st['next'], st['pgn']))
+            nxt = st['next']
+            if w == 0 and self.rng.random() < 0.5:
+                nxt = 0xFF          # SAE J1939-21: in a hold (0 packets) the next-packet byte is 0xFF; some implementations repeat the real number
+            self._tx(C.PF_TP_CM, st['sa'], C.tpcm_cts(w, nxt, st['pgn']))
 
 
 class Originator(ScriptNode):
